@@ -51,6 +51,9 @@ def pregen(check):
 TIE_MODULE = T + "Ties"
 TIEQ_MODULE = T + "TiesQ"   # query-side ties (Node, Edge, From); theorems live in namespace GeomV.C19.Ties
 TIEQ_THEOREMS = ["tie_Node", "tie_Edge", "forMapAux_setIdx", "tie_From", "tie_From_mem"]
+TIER_MODULE = T + "TiesR"   # phase 4: the body of ShortestRoute (adapter from the regenerated From/Weight/costHeuristic, totals loop) = Model.shortestRoute
+TIER_THEOREMS = ["ordOf_mem", "cand_mem", "tie_adapter", "tie_totals", "tie_aStar", "tie_ShortestRoute", "tie_ShortestRoute_ok",
+                 "tie_ShortestRoute_fault", "C19_regenerated"]
 TIE_THEOREMS = ["tie_NewNetwork", "tie_Has", "tie_newNodeID", "tie_newNode", "tie_addNode", "tie_ensureNode", "tie_AddLink",
                 "tie_Weight", "tie_costHeuristic", "tie_buildFrom", "tie_build"]
 
@@ -64,7 +67,7 @@ def regen(check):
     cfg = check.cfg
 
     def drop(why):
-        cfg["lean_modules"] = [m for m in cfg["lean_modules"] if m not in (TIE_MODULE, TIEQ_MODULE)]
+        cfg["lean_modules"] = [m for m in cfg["lean_modules"] if m not in (TIE_MODULE, TIEQ_MODULE, TIER_MODULE)]
         cfg["theorems"] = [t for t in cfg["theorems"] if not t.startswith(TIE_MODULE + ".")]
         check.broken.append(why)
     exe = os.path.join(check.rundir, "c19extract")
@@ -97,9 +100,17 @@ def regen(check):
         b = subprocess.run(["lake", "build", TIEQ_MODULE], cwd=vcheck.LEAN, stdout=subprocess.PIPE, stderr=subprocess.STDOUT, text=True)
     if b.returncode != 0:
         errs = re.findall(r"error: .*", b.stdout)[:3]
-        cfg["lean_modules"] = [m for m in cfg["lean_modules"] if m != TIEQ_MODULE]
-        cfg["theorems"] = [t for t in cfg["theorems"] if t.split(".")[-1] not in TIEQ_THEOREMS]
+        cfg["lean_modules"] = [m for m in cfg["lean_modules"] if m not in (TIEQ_MODULE, TIER_MODULE)]
+        cfg["theorems"] = [t for t in cfg["theorems"] if t.split(".")[-1] not in TIEQ_THEOREMS + TIER_THEOREMS]
         check.broken.append("T1 tie broken: Node/Edge/From of route.go as regenerated no longer denote the model (GeomV.C19.TiesQ does not build): " + " | ".join(errs))
+        return
+    with vcheck.Lock("lake"):
+        b = subprocess.run(["lake", "build", TIER_MODULE], cwd=vcheck.LEAN, stdout=subprocess.PIPE, stderr=subprocess.STDOUT, text=True)
+    if b.returncode != 0:
+        errs = re.findall(r"error: .*", b.stdout)[:3]
+        cfg["lean_modules"] = [m for m in cfg["lean_modules"] if m != TIER_MODULE]
+        cfg["theorems"] = [t for t in cfg["theorems"] if t.split(".")[-1] not in TIER_THEOREMS]
+        check.broken.append("T1 tie broken: the body of ShortestRoute of route.go as regenerated no longer denotes the model's shortestRoute (GeomV.C19.TiesR does not build): " + " | ".join(errs))
 
 
 FRAME_MODULE = T + "Frame"
@@ -150,7 +161,7 @@ def pregen_all(check):
 
 CFG = {
     "id": "C19",
-    "lean_modules": ["GeomV.C19.Heap", "GeomV.C19.Ident", "GeomV.C19.IdentGen", "GeomV.C19.Nearest", "GeomV.C19.NearestSort", "GeomV.C19.Proofs", TIE_MODULE, TIEQ_MODULE, FRAME_MODULE],
+    "lean_modules": ["GeomV.C19.Heap", "GeomV.C19.Ident", "GeomV.C19.IdentGen", "GeomV.C19.Nearest", "GeomV.C19.NearestSort", "GeomV.C19.Proofs", TIE_MODULE, TIEQ_MODULE, TIER_MODULE, FRAME_MODULE],
     "lean_dirs": ["C19"],
     "exe": "geomv_c19",
     "go_cmd": "c19",
@@ -166,7 +177,7 @@ CFG = {
                                  "C19_geo_rtree_contract", "C19_ident_build_rtree",
                                  # wave 3: C12.OrderOK discharged (sort.Sort = any program of Swap calls; NearestSort.lean)
                                  "C19_nearest_rtree_sort", "C19_geo_rtree_contract_sort", "C19_ident_build_rtree_sort", "C19_nearest_rtree_unguarded_sort"]]
-                + [TIE_MODULE + "." + n for n in TIE_THEOREMS + TIEQ_THEOREMS]
+                + [TIE_MODULE + "." + n for n in TIE_THEOREMS + TIEQ_THEOREMS + TIER_THEOREMS]
                 + [FRAME_MODULE + "." + n for n in FRAME_THEOREMS],
     "trusted_base": [
         "Lean 4.33.0 kernel; axioms of every theorem printed by #print axioms must be within {propext, Classical.choice, Quot.sound}",
